@@ -149,7 +149,13 @@ def r2(ctx, chk):
            key={"function": tn.key, "construct": "NUMERAL_PATTERN"}, file=tn.file, function=tn.qual, line=tn.node.lineno)
     t = " ".join(ast.unparse(tn.node).split())
     import re as _re
-    ok = _re.search(r"if (\w+)\.isdecimal\(\):", t) is not None and _re.search(r"str\(int\((\w+)\)\)\.zfill\(len\(\1\)\)", t) is not None
+    conv = _re.search(r"str\(int\((\w+)\)\)\.zfill\(len\(\1\)\)", t)
+    # the guard as a statement (`if tok.isdecimal():`) or as a conditional expression (`<conv> if tok.isdecimal() else tok`)
+    ok = conv is not None and (_re.search(r"if %s\.isdecimal\(\):" % conv.group(1), t) is not None
+                               or _re.search(r"\.zfill\(len\(%s\)\) if %s\.isdecimal\(\) else %s\b" % ((conv.group(1),) * 3), t) is not None)
+    if conv is None and "isdecimal" not in t and "isdigit" not in t and "isnumeric" not in t:
+        chk.error(rule, "_translate_numerals: neither the digit test nor the int/zfill conversion is written in a form this rule knows")
+        return
     chk.ob(rule, "_translate_numerals converts exactly the str.isdecimal tokens (Nd, what int() accepts) and keeps their width", ok,
            "the guard/convert pair changed (isdigit would admit superscripts that int() rejects; dropping zfill loses leading zeros)",
            key={"function": tn.key, "construct": "isdecimal -> int -> zfill"}, file=tn.file, function=tn.qual, line=tn.node.lineno)
